@@ -162,7 +162,8 @@ static void body(const struct dcfg *c, int tier)
   o.redirect.err.type = em == EM_PIPE ? REPROC_REDIRECT_PIPE : em == EM_MERGED ? REPROC_REDIRECT_STDOUT : REPROC_REDIRECT_PARENT;
   o.redirect.in.type = REPROC_REDIRECT_DISCARD;
   o.deadline = c->deadline;
-  if (c->sm == SM_FAILNEG) { fail_at = c->failk; fail_value = -5; }
+  /* the negative value is the sink's own business; every other position uses one that collides with a value the library gives a meaning to */
+  if (c->sm == SM_FAILNEG) { fail_at = c->failk; fail_value = (c->failk % 2) ? -5 : REPROC_EPIPE; }
   if (c->sm == SM_FAILPOS) { fail_at = c->failk; fail_value = 7; }
   char *s_out = NULL, *s_err = NULL;
   const char *pre = "pre:";
